@@ -373,6 +373,23 @@ func (ft *FuncTr) calleePkg(con *Contract, fn *ssa.Function) *packages.Package {
 
 func (ft *FuncTr) applyContract(st *State, at *Term, in ssa.Instruction, name string, con *Contract, fn *ssa.Function, sig *types.Signature, argT []*Term, fnv Val) (Val, error) {
 	short := strings.ReplaceAll(name, "go.universe.tf/metallb/", "")
+	if fn != nil && len(fn.TypeArgs()) > 0 && fn.Origin() != nil {
+		tps := fn.Origin().TypeParams()
+		if tps.Len() == len(fn.TypeArgs()) {
+			saveSub, saveTP := ft.w.tsubst, ft.w.tparams
+			sub := map[string]types.Type{}
+			tp := map[string]types.Type{}
+			for k, v := range saveTP {
+				tp[k] = v
+			}
+			for i := 0; i < tps.Len(); i++ {
+				sub[tps.At(i).Obj().Name()] = fn.TypeArgs()[i]
+				tp[tps.At(i).Obj().Name()] = tps.At(i)
+			}
+			ft.w.tsubst, ft.w.tparams = sub, tp
+			defer func() { ft.w.tsubst, ft.w.tparams = saveSub, saveTP }()
+		}
+	}
 	var fsig *types.Signature
 	if fn != nil {
 		fsig = fn.Signature
